@@ -1,7 +1,7 @@
 """C03 — generated code computes what the equations say (DESIGN §3 C03)."""
 import sup
 
-WRAPS = {'quick': ['w1', 'w2', 'w3', 'w4'], 'thorough': ['w1', 'w2', 'w3', 'w4']}
+WRAPS = {'quick': ['w1', 'w2', 'w3', 'w4', 'w5'], 'thorough': ['w1', 'w2', 'w3', 'w4', 'w5']}
 
 def main(tier, prop='C03'):
     c = sup.Check(prop, tier, 'exploration')
@@ -17,7 +17,7 @@ def main(tier, prop='C03'):
     return c.finish(
         rule='every expression tree of depth <= 2 over the full supported MathML operator set (every parent x operand position x child operator, plus '
              'constants and cn forms) and depth-3 chains over the precedence-sensitive operators, in wrappers w1 (computed constant), w2 (algebraic, reads a '
-             'state and the VOI), w3 (dx/dt = E mentioning x), w4 (implicit NLA form); each shape is a distinct case by construction and is evaluated at up to 3 '
+             'state and the VOI), w3 (dx/dt = E mentioning x), w4 (implicit NLA form), w5 (operands a and d live in another component in millimetres / kilometres and reach the equation through connections); each shape is a distinct case by construction and is evaluated at up to 3 '
              'leaf valuations; judged = (shape, valuation) pairs whose reference value is finite and well-conditioned and that were compared against compiled C and exec\'d Python',
         assumptions=[
             'reference evaluator lib/mexpr.py written from the MathML/CellML specification (root = x^(1/degree), log base 10 by default, rem = fmod, relational/logical results are 1.0/0.0)',
